@@ -29,6 +29,10 @@ class _Break(Exception):
         self.v = v
 
 
+class _Continue(Exception):
+    pass
+
+
 class Sym:
     """Opaque payload value: rank for ordering (None = incomparable), null flag, optional tag."""
     def __init__(self, name, rank=None, null=False, ty=None, props=None):
@@ -181,6 +185,15 @@ class Interp:
         if k == "pstruct":
             if isinstance(v, Struct):
                 return all(self.bind(f["pat"], v.fields[f["name"]], env) for f in p["fields"])
+            if isinstance(v, Enum):
+                if v.variant != p.get("variant"):
+                    return False
+                for f in p["fields"]:
+                    if not f["name"].isdigit() or int(f["name"]) >= len(v.fields):
+                        raise Unsupported("named field pattern on enum value")
+                    if not self.bind(f["pat"], v.fields[int(f["name"])], env):
+                        return False
+                return True
             raise Unsupported("struct pattern on %r" % (v,))
         if k == "por":
             for a in p["alts"]:
@@ -265,7 +278,7 @@ class Interp:
             if any(m in self.skip_macros for m in chain):
                 return Tuple([])
             if any(m in ("unreachable", "panic", "unimplemented", "todo") for m in chain):
-                raise PanicReached(chain[0])
+                raise PanicReached([m for m in chain if m in ("unreachable", "panic", "unimplemented", "todo")][-1])
         k = n.get("k")
         if k == "local":
             c = env.get(n["bid"])
@@ -327,8 +340,21 @@ class Interp:
                 return b.elems[int(n["name"])]
             raise Unsupported("field %s of %r" % (n["name"], b))
         if k == "path":
+            dk = n.get("dk") or ""
+            if "variant" in n and "Fn" in dk and dk.startswith("Ctor"):
+                ty = self.C.S(n.get("ty")) or ""
+                if ty.startswith("fn(") or "{" in ty:
+                    return ("fnpath", n)          # tuple-variant constructor used as a function value
             if "variant" in n:
                 return Enum(n.get("adt"), n["variant"])
+            if dk in ("Fn", "AssocFn"):
+                return ("fnpath", n)
+            h = self.intr.get("const:" + (n.get("def") or ""))
+            if h is not None:
+                return h(self, n, [])
+            f = self.C.fn(n.get("def") or "")
+            if f is not None and dk.startswith(("Const", "AssocConst", "Static")):
+                return self.ev(f["body"], {})
             raise Unsupported("path %s" % (n.get("def"),))
         if k == "ctor":
             return Enum(n.get("adt"), n.get("variant"), [self.ev(a, env) for a in n["args"]])
@@ -368,16 +394,67 @@ class Interp:
             return self.call(n, env)
         if k == "cast":
             return self.ev(n["e"], env)
+        if k == "loop":
+            guard = 0
+            while True:
+                guard += 1
+                if guard > 2000:
+                    raise Unsupported("loop bound")
+                try:
+                    self.ev(n["body"], env)
+                except _Break as b:
+                    return b.v if b.v is not None else Tuple([])
+                except _Continue:
+                    continue
+        if k == "break":
+            raise _Break(self.ev(n["e"], env) if "e" in n else None)
+        if k == "continue":
+            raise _Continue()
+        if k == "index":
+            base = deref(self.ev(n["base"], env))
+            idx = deref(self.ev(n["idx"], env))
+            h = self.intr.get("index")
+            if h is not None:
+                return h(self, n, [base, idx])
+            raise Unsupported("indexing")
         if k == "closure":
             return ("closure", n, env)
         if k == "ucall":
             f = self.ev(n["f"], env)
             if isinstance(f, tuple) and f and f[0] == "closure":
                 return self.call_closure(f, [self.ev(a, env) for a in n["args"]])
+            if isinstance(f, tuple) and f and f[0] == "fnpath":
+                return self.call_path(f[1], [self.ev(a, env) for a in n["args"]])
             raise Unsupported("call of a non-closure value")
         if k == "array":
             return VecV([self.ev(x, env) for x in n["elems"]])
         raise Unsupported("node kind %s" % k)
+
+    def call_path(self, node, args):
+        """Call a function referenced by a path node (`.map(Type::new)`, `.filter(EdgeInfo::is_mandatory)`, `.map(Some)`)."""
+        if "variant" in node:
+            return Enum(node.get("adt"), node["variant"], list(args))
+        callee = node.get("resolved") or node.get("callee") or node.get("def") or ""
+        for key in (callee, node.get("callee") or "", node.get("def") or ""):
+            h = self.intr.get(key)
+            if h is not None:
+                return h(self, node, list(args))
+        f = self.inline(node.get("resolved") or "") or self.inline(node.get("def") or "")
+        if f is not None:
+            return self.call_fn(f, list(args))
+        raise Unsupported("call through path %s" % callee)
+
+    def _value_fits(self, v, ty):
+        """Coarse check that abstract value v can be a value of the Rust type named `ty` (for From dispatch)."""
+        if isinstance(v, VecV):
+            return ty.startswith("alloc::vec::Vec<") or ty.startswith("&[") or ty.startswith("[")
+        if isinstance(v, Enum):
+            return ty.startswith(v.adt) or ty.startswith("&" + v.adt)
+        if isinstance(v, Struct):
+            return ty.startswith(v.adt)
+        if isinstance(v, str):
+            return "str" in ty or "String" in ty
+        return False
 
     def call_closure(self, clo, args):
         _, node, env = clo
@@ -501,8 +578,16 @@ class Interp:
             h = self.intr.get(key)
             if h is not None:
                 return h(self, n, args)
-        if name == "call" or callee.startswith("core::ops::function::Fn"):
-            pass
+        if name in ("into", "from") and (n.get("trait") or "") in ("core::convert::Into", "core::convert::From") and args:
+            tgt = self.C.S(n.get("ty")) or ""
+            srcv = deref(args[0])
+            for f in self.C.fns:
+                if f.get("impl_trait") == "core::convert::From" and f.get("name") == "from" and f.get("self_ty") == tgt \
+                        and f["path"] != (n.get("_caller") or ""):
+                    pty = (self.C.S(f["params"][0].get("ty")) or "")
+                    if self._value_fits(srcv, pty):
+                        return self.call_fn(f, [args[0]])
+            return args[0]
         # transparent std helpers
         if name in ("clone", "as_ref", "borrow", "deref", "to_owned", "as_deref", "into", "as_mut", "borrow_mut", "cloned", "copied") and len(args) == 1:
             return args[0]
